@@ -20,6 +20,7 @@ type Scalar struct{ T *Term }
 type SliceV struct {
 	Base, Off, Len, Cap *Term
 	Raw                 bool // view onto raw memory M (Base==0, Off = absolute address)
+	Arr                 *Term // detached content (ghost byte strings recorded in traces); overrides BH[Base]
 }
 
 // PSlice: slice of non-byte elements: pointer into typed heap.
@@ -364,7 +365,7 @@ func mapVal(v Val, f func(*Term) *Term) Val {
 	case Scalar:
 		return Scalar{f(x.T)}
 	case SliceV:
-		r := SliceV{Base: f(x.Base), Off: f(x.Off), Len: f(x.Len), Raw: x.Raw}
+		r := SliceV{Base: f(x.Base), Off: f(x.Off), Len: f(x.Len), Raw: x.Raw, Arr: x.Arr}
 		if x.Cap != nil {
 			r.Cap = f(x.Cap)
 		}
